@@ -7,7 +7,8 @@ from gen import inst as GI
 PROP = "C06"
 RUNNER = ("RunSamples", "run_C06")
 COQ_TARGETS = ["theories/RunSamples.vo"]
-AUTHORITY = ("C06_* (coq/props/C06.v) and the C05 model: for every submitted id the runner checks SampleSet::get(id) and "
+AUTHORITY = ("C06_get_evaluate_samples / C06_get_state (coq/props/C06.v: get k of the evaluated sample set = the single "
+             "evaluation of state k, for every partition) and the C05 model: for every submitted id the runner checks SampleSet::get(id) and "
              "Instance::evaluate(state_id) against the model's single evaluation, and the tables against the model's sample set")
 RULE = ("valid instances (active + removed constraints, dependencies, substituted and irrelevant variables) x Samples messages "
         "with 1-8 arbitrary non-contiguous sample ids, random partitions of the ids into entries (thorough: every set partition "
@@ -18,7 +19,7 @@ TRUSTED = ["hand-written model coq/theories/Samples.v of evaluate_samples / Samp
            "(tied by this correspondence only)", "single evaluations are judged against the C05 model (Inst.v)"]
 ASSUMPTIONS = ["in-bound states (evaluate_samples does not check bounds, evaluate does)", "equalities are specified",
                "states assign no value to dependent variables", "small dyadic numbers"]
-PLANNED = ["C06_get_commutes as one composite theorem (currently: component lemmas + per-case model check 'MODEL:' in the runner)"]
+PLANNED = []
 SHARD = 60
 
 
